@@ -38,6 +38,8 @@ remaining program starting at VERIF_SEED mod m.
 
 from __future__ import annotations
 
+import os
+import shutil
 import signal
 import time
 from fractions import Fraction
@@ -508,6 +510,7 @@ class Check(BaseCheck):
             if j % m == i:
                 self.check_program(r, p)
         r.count('cpu_ms', int(1000 * (time.process_time() - t0)))     # informational only
+        _drop_scratch()
         return r
 
     def selfcheck(self):
@@ -545,6 +548,15 @@ class Check(BaseCheck):
         return False, (f"{_spec_text(case['spec'])} where={case['where']} on xs={case['xs']} ys={case['ys']} "
                        f"k={case['k']}: transformed program agrees with the original "
                        f"(counters {dict(r.counts)})")
+
+
+def _drop_scratch():
+    """Pool workers are terminated without running `atexit`, so the loader's per-process scratch
+    directory is removed here, after each shard (the loader makes a new one on demand)."""
+    from ..engine import loader
+    d = loader._DIR
+    if d and loader._PID == os.getpid():
+        shutil.rmtree(d, ignore_errors=True)
 
 
 def _spec_text(spec):
